@@ -21,7 +21,7 @@ theorem sstep_inv (s : SS) (e : SEv) (hne : e ≠ .pan) (h : SInv s) :
   obtain ⟨hb, hr, hn, hf⟩ := h
   cases e with
   | pan => exact absurd rfl hne
-  | hnew es ok over d =>
+  | hnew es ok over d iws =>
     simp only [sstep]
     split
     · refine ⟨⟨?_, by simp, by simp, by simp⟩, rfl⟩
@@ -87,6 +87,23 @@ theorem sstep_inv (s : SS) (e : SEv) (hne : e ≠ .pan) (h : SInv s) :
       · rename_i hp; rcases this with h | h | h <;> simp [h] at hp
       · rename_i hp; rcases this with h | h | h <;> simp [h] at hp
       · exact ⟨⟨hb, by simp, by simp, by simp⟩, rfl⟩
+  | finQueued =>
+    simp only [sstep]
+    split
+    · exact ⟨⟨hb, hr, hn, hf⟩, rfl⟩
+    · exact ⟨⟨hb, by simp, hn, by simp⟩, rfl⟩
+  | winUpd inc =>
+    simp only [sstep]
+    split
+    · exact ⟨⟨hb, hr, hn, hf⟩, rfl⟩
+    · split
+      · exact ⟨⟨hb, hr, hn, hf⟩, rfl⟩
+      · exact ⟨⟨by simp [closeReset], by simp [closeReset], hn, hf⟩, rfl⟩
+  | badWinUpd =>
+    simp only [sstep]
+    split
+    · exact ⟨⟨by simp [closeReset], by simp [closeReset], hn, hf⟩, rfl⟩
+    · exact ⟨⟨hb, hr, hn, hf⟩, rfl⟩
   | wrote =>
     simp only [sstep]
     split
@@ -111,61 +128,151 @@ theorem cinv_upd (c : Conn) (id : Nat) (r : SS × Out) (h : CInv c) (hr : SInv r
 
 theorem upd_out (c : Conn) (id : Nat) (r : SS × Out) : (c.upd id r).2 = r.2 := rfl
 
+/-- a stream step followed by the bookkeeping of the connection -/
+theorem upd_step (c : Conn) (id : Nat) (e : SEv) (hne : e ≠ .pan) (h : CInv c) :
+    CInv (c.upd id (sstep (c.streams id) e)).1 ∧ (c.upd id (sstep (c.streams id) e)).2.isPanic = false := by
+  obtain ⟨a, b⟩ := sstep_inv (c.streams id) e hne (h id)
+  exact ⟨cinv_upd c id _ h a, b⟩
+
+theorem connErr_inv (c : Conn) (code : Nat) (f : Bool) (h : CInv c) :
+    CInv (connErr c code f).1 ∧ (connErr c code f).2.isPanic = false := by
+  unfold connErr
+  simp only []
+  split <;> split <;> exact ⟨h, rfl⟩
+
+theorem settingsErr_inv (c : Conn) (f : Bool) (h : CInv c) :
+    CInv (settingsErr c f).1 ∧ (settingsErr c f).2.isPanic = false := by
+  unfold settingsErr
+  simp only []
+  split
+  · exact ⟨(connErr_inv c 3 f h).1, rfl⟩
+  · exact connErr_inv c 3 f h
+
+theorem sinv_flow (s : SS) (x : Int) (h : SInv s) : SInv { s with flow := x } := ⟨h.body, h.run, h.nopanic, h.fin⟩
+
+theorem growAll_inv (c : Conn) (g : Int) (st : Nat → SS) (h : CInv c) (hg : growAll c g = some st) :
+    ∀ id, SInv (st id) := by
+  unfold growAll at hg
+  split at hg
+  · cases hg
+    intro id
+    simp only []
+    split
+    · exact sinv_flow _ _ (h id)
+    · exact h id
+  · cases hg
+
 def Ev.isP : Ev → Bool
   | .P _ => true
   | _ => false
 
-theorem cstep_inv (c : Conn) (e : Ev) (hp : e.isP = false) (h : CInv c) :
-    CInv (cstep c e).1 ∧ (cstep c e).2.isPanic = false := by
+theorem headersEv_inv (c : Conn) (id : Nat) (es : Bool) (k : Kind) (h : CInv c) :
+    CInv (headersEv c id es k).1 ∧ (headersEv c id es k).2.isPanic = false := by
+  unfold headersEv
+  split
+  · exact connErr_inv c 1 true h
+  · split
+    · exact ⟨h, rfl⟩
+    · split
+      · exact connErr_inv c 1 false h
+      · split
+        · exact upd_step c id _ (by simp) h
+        · split
+          · exact connErr_inv c 1 false h
+          · simp only []
+            have h' : CInv { c with maxId := id } := h
+            exact upd_step { c with maxId := id } id _ (by simp) h'
+
+theorem cstepCore_inv (c : Conn) (e : Ev) (hp : e.isP = false) (h : CInv c) :
+    CInv (cstepCore c e).1 ∧ (cstepCore c e).2.isPanic = false := by
   cases e with
   | P id => cases hp
-  | H id es k =>
-    clear hp
-    simp only [cstep]
-    split
-    · exact ⟨h, rfl⟩
-    · split
-      · obtain ⟨a, b⟩ := sstep_inv (c.streams id) (.hagain es (match k with | .tr => false | _ => true)) (by simp) (h id)
-        exact ⟨cinv_upd c id _ h a, b⟩
-      · split
-        · exact ⟨h, rfl⟩
-        · skip
-          have h' : CInv { c with maxId := id } := h
-          obtain ⟨a, b⟩ := sstep_inv (c.streams id)
-            (.hnew es (match k with | .ok => true | .cl _ => true | _ => false) (decide (c.cur + 1 > c.adv))
-              (match k with | .cl n => some n | _ => none)) (by simp) (h id)
-          exact ⟨cinv_upd { c with maxId := id } id _ h' a, b⟩
+  | H id es k => exact headersEv_inv c id es k h
+  | K id es => exact headersEv_inv c id es .ok h
   | D id n es =>
-    simp only [cstep]
+    simp only [cstepCore]
     split
-    · exact ⟨h, rfl⟩
-    · obtain ⟨a, b⟩ := sstep_inv (c.streams id) (.data n es) (by simp) (h id)
-      exact ⟨cinv_upd c id _ h a, b⟩
-  | R id =>
-    simp only [cstep]
-    split
-    · exact ⟨h, rfl⟩
+    · exact connErr_inv c 1 true h
     · split
       · exact ⟨h, rfl⟩
-      · obtain ⟨a, b⟩ := sstep_inv (c.streams id) .rstc (by simp) (h id)
-        exact ⟨cinv_upd c id _ h a, b⟩
+      · exact upd_step c id _ (by simp) h
+  | R id =>
+    simp only [cstepCore]
+    split
+    · exact connErr_inv c 1 true h
+    · split
+      · exact connErr_inv c 1 false h
+      · exact upd_step c id _ (by simp) h
   | F id =>
-    simp only [cstep]
+    simp only [cstepCore]
     split
     · exact ⟨h, rfl⟩
-    · obtain ⟨a, b⟩ := sstep_inv (c.streams id) .fin (by simp) (h id)
-      have hc := cinv_upd c id (sstep (c.streams id) .fin) h a
-      split
-      · exact ⟨hc, by rw [upd_out]; exact b⟩
-      · exact ⟨hc, b⟩
+    · split
+      · exact upd_step c id _ (by simp) h
+      · obtain ⟨a, b⟩ := upd_step c id .fin (by simp) h
+        split
+        · exact ⟨a, by rw [upd_out] at b ⊢; exact b⟩
+        · exact ⟨a, b⟩
   | W =>
-    simp only [cstep]
+    simp only [cstepCore]
     split
     · exact ⟨h, rfl⟩
     · rename_i id _
       have h' : CInv { c with held := none } := h
-      obtain ⟨a, b⟩ := sstep_inv (c.streams id) .wrote (by simp) (h id)
-      exact ⟨cinv_upd { c with held := none } id _ h' a, b⟩
+      exact upd_step { c with held := none } id .wrote (by simp) h'
+  | S ack iws =>
+    simp only [cstepCore]
+    split
+    · have h' : CInv { c with unacked := c.unacked - 1 } := h
+      split
+      · exact connErr_inv _ 1 false h'
+      · exact ⟨h', rfl⟩
+    · split
+      · exact ⟨h, rfl⟩
+      · rename_i v
+        split
+        · exact settingsErr_inv c true h
+        · have h' : CInv { c with iws := (v : Int) } := h
+          split
+          · rename_i st hst
+            exact ⟨growAll_inv _ _ st h' hst, rfl⟩
+          · exact settingsErr_inv _ false h'
+  | G id ack =>
+    simp only [cstepCore]
+    split
+    · exact connErr_inv c 1 true h
+    · exact ⟨h, rfl⟩
+  | U id inc =>
+    simp only [cstepCore]
+    split
+    · split
+      · exact connErr_inv c 1 true h
+      · exact upd_step c id _ (by simp) h
+    · split
+      · split
+        · exact ⟨h, rfl⟩
+        · exact connErr_inv c 3 false h
+      · exact upd_step c id _ (by simp) h
+  | Y id dep excl =>
+    simp only [cstepCore]
+    split
+    · exact connErr_inv c 1 true h
+    · exact ⟨h, rfl⟩
+  | C id => exact connErr_inv c 1 true h
+  | X id => exact connErr_inv c 1 true h
+  | A => exact ⟨h, rfl⟩
+  | Q =>
+    simp only [cstepCore]
+    split
+    · exact ⟨h, rfl⟩
+    · exact ⟨h, rfl⟩
+
+theorem cstep_inv (c : Conn) (e : Ev) (hp : e.isP = false) (h : CInv c) :
+    CInv (cstep c e).1 ∧ (cstep c e).2.isPanic = false := by
+  unfold cstep
+  split
+  · exact ⟨h, rfl⟩
+  · exact cstepCore_inv c e hp h
 
 theorem runEvs_no_panic (c : Conn) (evs : List Ev) (acc : List Out)
     (hp : ∀ e ∈ evs, e.isP = false) (h : CInv c) (hacc : ∀ o ∈ acc, o.isPanic = false) :
@@ -212,7 +319,16 @@ def panicTable : List ((String × String) × Disp) := [
   (("CloseNotify", "CloseNotify called after Handler finished"), .outside "handler goroutine misuse of a finished ResponseWriter, not the serve loop"),
   (("Header", "Header called after Handler finished"), .outside "handler goroutine misuse of a finished ResponseWriter, not the serve loop"),
   (("WriteHeader", "WriteHeader called after Handler finished"), .outside "handler goroutine misuse of a finished ResponseWriter, not the serve loop"),
-  (("write", "Write called after Handler finished"), .outside "handler goroutine misuse of a finished ResponseWriter, not the serve loop")
+  (("write", "Write called after Handler finished"), .outside "handler goroutine misuse of a finished ResponseWriter, not the serve loop"),
+  (("take", "internal error: took too much"), .outside "outbound DATA scheduling against the send windows, property C34 (handlers of this model send no body)"),
+  (("putEmptyQueue", "queue must be empty"), .outside "write scheduler internals, property C34"),
+  (("take", "internal error: ws.maxFrameSize not initialized or invalid"), .outside "maxFrameSize is initialised by ServeConn and SETTINGS_MAX_FRAME_SIZE is range-checked by Setting.Valid"),
+  (("take", "should be empty"), .outside "write scheduler internals, property C34"),
+  (("streamWritableBytes", "internal error: ws.maxFrameSize not initialized or invalid"), .outside "maxFrameSize is initialised by ServeConn and SETTINGS_MAX_FRAME_SIZE is range-checked by Setting.Valid"),
+  (("head", "invalid use of queue"), .outside "write scheduler internals, property C34"),
+  (("shift", "invalid use of queue"), .outside "write scheduler internals, property C34"),
+  (("endsStream", "endsStream called on nil writeFramer"), .outside "wroteFrame reads wm.write before it is set to nil"),
+  (("writeFrame", "unexpected empty hpack"), .outside "response encoding, property C38 (a status of 0 with no header at all)")
 ]
 
 def classifySite (s : String × String) : Bool := panicTable.any fun e => e.1.1 == s.1 && e.1.2 == s.2
